@@ -64,8 +64,8 @@ def script_events(t, modname='vtw.tests', nth=1):
         else:
             base = '%s (%s)' % (dn.split('.')[-1], '.'.join(dn.split('.')[:-1]))
         return [('F', base)] if s == 'fail' else []
-    base = 'test_%s (%s.T_%s.test_%s)' % (t['n'], modname, t['n'], t['n'])
-    if s in ('pass', 'xfail', 'leave_replaced', 'warnfilter', 'swap_pass', 'settrace'):
+    base = 'test_%s (%s.T_%s.test_%s)' % (t['n'], modname, t.get('shcls') or t['n'], t['n'])
+    if s in ('pass', 'xfail', 'leave_replaced', 'warnfilter', 'swap_pass', 'settrace', 'chdir'):
         return []
     if s == 'sub_skip':
         return [('S', '%s (i=0)' % base)]
